@@ -211,6 +211,7 @@ pub fn gen(prop: &str, seed: u64) -> Plan {
         "C07" => gen_c07(seed),
         "C16" => gen_c16(seed),
         "C11" => gen_c11(seed),
+        "C18" => gen_c18(seed),
         "C01" => gen_byz(seed, "C01"),
         "C02" => gen_byz(seed, "C02"),
         "C06" => gen_byz(seed, "C06"),
@@ -789,4 +790,71 @@ fn gen_c11(seed: u64) -> Plan {
     }
     b.plan.flags = vec!["byz".into(), "statemachine".into()];
     finish(b, until, 150_000)
+}
+
+/// Submissions (valid, mutated, dependent on pending ones, resubmitted, bursts beyond the pool
+/// limit) interleaved with sync, relay opens / closes, relay ticks, requests for the bodies,
+/// reconnects and restarts.
+fn gen_c18(seed: u64) -> Plan {
+    let mut b = base("C18", seed, 60, 3);
+    b.plan.chain.max_txs = b.rng.range(1, 4);
+    if b.plan.chain.pow == PowKind::Eaglesong && b.rng.chance(2, 3) {
+        b.plan.chain.pow = PowKind::Dummy;
+        b.plan.chain.base_difficulty = 50_000;
+    }
+    let np = b.plan.peers.len();
+    connect_all(&mut b, 2_000);
+    let until = b.rng.range(40_000, 140_000);
+    growth(&mut b, until);
+    // the user watches (nearly always) every lock script from genesis on, so that the code cell
+    // and a good part of the live cells are known to the client
+    let scripts: Vec<(ScriptRef, u64)> = if b.rng.chance(7, 8) {
+        (0..b.plan.chain.n_locks).map(|i| (ScriptRef::Lock(i), 0)).collect()
+    } else {
+        let tip = b.plan.initial_blocks;
+        random_scripts(&mut b, 3, tip)
+    };
+    add(&mut b.plan, b.rng.range(0, 3_000), Action::User(UserOp::SetScripts { cmd: SetCmd::All, scripts }));
+    let n_sub = if b.rng.chance(1, 6) { b.rng.range(66, 90) } else { b.rng.range(3, 24) };
+    let burst = n_sub > 60;
+    let mut t = b.rng.range(10_000, until / 2);
+    for _ in 0..n_sub {
+        let mutation = if burst {
+            if b.rng.chance(9, 10) { 0 } else { b.rng.range(1, 14) as u8 }
+        } else {
+            match b.rng.below(10) {
+                0..=3 => 0,
+                4 => 20,
+                _ => b.rng.range(1, 14) as u8,
+            }
+        };
+        let source = if b.rng.chance(1, 3) { 1 } else { 0 };
+        let spec = TxSpec { seed: b.rng.next_u64(), source, mutation };
+        let op = if b.rng.chance(1, 4) && !burst { UserOp::EstimateCycles(spec) } else { UserOp::SendTransaction(spec) };
+        add(&mut b.plan, t, Action::User(op));
+        t += if burst { b.rng.range(10, 1_500) } else { b.rng.range(100, (until / 10).max(200)) };
+    }
+    for _ in 0..b.rng.range(2, 12) {
+        let at = b.rng.range(5_000, until);
+        let peer = b.rng.usize_below(np);
+        match b.rng.below(8) {
+            0 | 1 | 2 => add(&mut b.plan, at, Action::RelayOpen { peer }),
+            3 => add(&mut b.plan, at, Action::RelayClose { peer }),
+            4 | 5 => add(&mut b.plan, at, Action::RelayGetTxs { peer }),
+            6 => {
+                add(&mut b.plan, at, Action::Disconnect { peer });
+                add(&mut b.plan, at + b.rng.range(100, 10_000), Action::Connect { peer });
+                add(&mut b.plan, at + b.rng.range(10_000, 20_000), Action::RelayOpen { peer });
+            }
+            _ => {
+                if b.rng.chance(1, 3) {
+                    add(&mut b.plan, at, Action::Restart);
+                } else {
+                    add(&mut b.plan, at, Action::RelayOpen { peer });
+                }
+            }
+        }
+    }
+    b.plan.flags = vec!["honest".into(), "relay".into()];
+    finish(b, until, 100_000)
 }
